@@ -12,9 +12,15 @@ fn fail<T>(step: usize, clause: &str, detail: String) -> Result<T, Failure> {
 }
 
 /// Ok(true)/Ok(false) expected from validate_op by the property (C16); None = no expectation
-pub fn expect_validate_ok(family: &Family, aops: &[AOp], k: KSet, ix: usize) -> Option<bool> {
+pub fn expect_validate_ok(family: &Family, aops: &[AOp], k: KSet, ix: usize, cur_obs: Option<&Obs>) -> Option<bool> {
     let o = &aops[ix];
+    if let (Family::Lww, Some(Obs::Lww { val, marker }), AInfo::Lww { v, marker: m }) = (family, cur_obs, &o.info) {
+        // a marker clash is judged against what the replica holds right now
+        return Some(!(marker == m && val != v));
+    }
     match family {
+        // MVReg needs no delivery order at all: it accepts everything
+        Family::Dotted(Shape::Reg) => Some(true),
         Family::Dotted(_) | Family::VClock | Family::List => match o.dot {
             None => Some(true),
             Some(n) => {
@@ -50,7 +56,7 @@ pub fn check_validate_merge_correct<S: Sut>(w: &World<S>, a: &S, b: &S, what: &s
                 return fail(
                     w.step,
                     "vmerge.correct",
-                    format!("{}: {} = {:?} although every actor was confined to one replica\n  a: {}\n  b: {}", what, dir, v, dq(a.dbg()), dq(b.dbg())),
+                    format!("{}: {} = {} although every actor was confined to one replica\n  a: {}\n  b: {}", what, dir, v.show(), dq(a.dbg()), dq(b.dbg())),
                 )
             }
             Err(p) => return fail(w.step, "vmerge.correct", format!("{}: validate_merge panicked: {}", what, p)),
@@ -101,6 +107,10 @@ pub fn replay_fresh<S: Sut>(w: &World<S>, k: KSet, clause: &str) -> Result<S, Fa
 }
 
 pub fn run_probe<S: Sut>(w: &mut World<S>, p: &Probe) -> Res {
+    if matches!(p, Probe::Laws { .. } | Probe::MergeVsOps { .. } | Probe::Redundancy { .. } | Probe::ValidateMerge { .. }) && S::can_merge() {
+        // these probes merge states: the history now contains a merge (trigger predicates look at this)
+        w.merged = true;
+    }
     match p {
         Probe::Laws { a, b, c } => {
             if !S::can_merge() {
@@ -291,13 +301,13 @@ pub fn run_probe<S: Sut>(w: &mut World<S>, p: &Probe) -> Res {
             let op = w.ops[ix].wire_op.clone();
             w.stats.probe_cases += 1;
             let v = guard(|| st.validate_op(&op));
-            let exp = expect_validate_ok(&w.family, &w.aops, k, ix);
+            let exp = expect_validate_ok(&w.family, &w.aops, k, ix, w.nodes[*node].last_obs.as_ref());
             match (v, exp) {
                 (Ok(Verdict::Ok), Some(true)) | (Ok(Verdict::Err { .. }), Some(false)) | (Ok(_), None) => Ok(true),
                 (Ok(v), Some(e)) => fail(
                     w.step,
                     "validate.any",
-                    format!("node {} K={:x}: validate_op({}) = {:?}, expected {}", node, k, S::op_dbg(&op), v, if e { "Ok (no update of its actor is skipped)" } else { "an ordering error (a gap)" }),
+                    format!("node {} K={:x}: validate_op({}) = {}, expected {}", node, k, S::op_dbg(&op), v.show(), if e { "Ok (no update of its actor is skipped)" } else { "an ordering error (a gap)" }),
                 ),
                 (Err(p), _) => fail(w.step, "validate.any", format!("validate_op panicked: {}", p)),
             }
@@ -345,7 +355,7 @@ pub fn run_probe<S: Sut>(w: &mut World<S>, p: &Probe) -> Res {
                 match &first {
                     None => first = Some((n, o, st)),
                     Some((m, o0, s0)) => {
-                        if o0.strip_nested() != o.strip_nested() {
+                        if w.cfg.on("quiesce") && o0.strip_nested() != o.strip_nested() {
                             return fail(w.step, "quiesce", format!("after everything was delivered everywhere node {} and node {} read differently\n  n{}: {}\n  n{}: {}", m, n, m, o0.show(), n, o.show()));
                         }
                         if w.cfg.on("quiesce.eq") {
